@@ -1,6 +1,7 @@
 import Bardic.Driver.Obs
 import Bardic.Driver.StdlibRun
 import Bardic.Driver.CodecRun
+import Bardic.Driver.IncludeRun
 /-!
 # `driver`: line protocol.  One JSON case per input line, one JSON answer per output line.
 -/
@@ -108,6 +109,7 @@ def handle (line : String) : String :=
     | "play" => (runPlay j).compress
     | "stdlib" => (runStdlib j).compress
     | "codec" => (runCodec j).compress
+    | "include" => (runInclude j).compress
     | k => (jObj [("status", "unknown_kind"), ("kind", .str k)]).compress
 
 partial def loop (h : IO.FS.Stream) (out : IO.FS.Stream) : IO Unit := do
